@@ -133,7 +133,7 @@ CONSEQUENCE = {
     'C19-agent3': 'missed: all C19 weights were integers -> k/7 weights and the `fanin` family (hub improved m times, fan-out L, non-dyadic weights) added',
     'C20-agent3': 'missed: the catalogue always spelled the label type -> CTAD constructor snippets (C++17 and later) added',
     'C01-agent4': 'caught through the empty-class label kind (added after round 3) in C01',
-    'C02-agent4': 'missed: the vertices of the 129-700 job almost never included 255 / 511 -> 10 % of the vertex values are taken next to word-size boundaries',
+    'C02-agent4': 'missed: the vertices of the 129-700 job almost never included 255 / 511 -> 10 % of the vertex values are taken next to word-size boundaries; a later run of the hardest changes under seeds 2 and 3 still missed it once -> 1500 instead of 400 cases of that size class, removeDuplicateEdges 8 % of their operations (then reported under seeds 1-6)',
     'C04-agent4': 'caught through the 129-700-vertex job added for it',
     'C05-agent4': 'caught through the read-modify-read probe added for it (hasEdge + getter on both orientations right before and right after each pair operation)',
     'C06-agent4': 'caught, but the 66-80-vertex pairs took 2000 CPU-s -> light observation for them',
